@@ -163,3 +163,9 @@ UNIT = {
         for q in range(4)
     ],
 }
+
+# C06 (panic-freedom) is carried by the complete obligations and the modular wrapper harnesses only; the per-length
+# bounded families decide C17 (keeps the C06 quick check short)
+for _o in UNIT['obligations']:
+    if _o['kind'] == 'bounded' and '.wrapper.' not in _o['id']:
+        _o['props'] = [p for p in _o['props'] if p != 'C06']
